@@ -601,6 +601,15 @@ def r9_inherited_members(repo):
                   and isinstance(n.targets[0].value, ast.Name) and n.targets[0].value.id in fresh]
         other = sorted({n.targets[0].attr for n in stores} - TYPE_ATTRS)
         ctor_calls = [c for c in calls_in(f.node) if call_name(c) in ("ParameterDeclaration", "FunctionDeclaration", "FieldDeclaration")]
+        # a copied function carries its type twice (ret_type: what is printed, inferred_type: what get_type() answers):
+        # substituting one of them only leaves the other one talking about the superclass's type variables
+        half = []
+        for v in fresh:
+            attrs = {n.targets[0].attr for n in stores if n.targets[0].value.id == v}
+            if len(attrs & {"ret_type", "inferred_type"}) == 1:
+                half.append("%s.%s only" % (v, sorted(attrs & {"ret_type", "inferred_type"})[0]))
+        obs.append(Ob("C01-R9", "%s:declared-and-inferred-type-substituted-together" % name, _w(f), not half,
+                      "ret_type and inferred_type of a copied function must be written together: %s" % half))
         ok = bool(fresh) and not rebuilt and not other and not ctor_calls
         obs.append(Ob("C01-R9", "%s:members-are-deep-copies-with-substituted-types" % name, _w(f), ok,
                       "inherited members must be deepcopy(<member>) with only type attributes reassigned (%s); rebuilding a "
